@@ -35,13 +35,13 @@ CLAIMED = {
  "C01": dict(text="Coq theorems for ALL signatures x packet signatures x max_dist: tcp_match <> None <-> Matches (declarative rule set incl. "
                   "version, wildcards, window forms, quirk sets as SETS), exact/fuzzy characterisation, ttl- rule, mask<->set bridge. " + TIE + GEN,
              note="Trusted: Coq kernel; extraction+driver; generator/worker; hand-written model of tcp_signatures_match/calculate_window_multiplier "
-                  "(tied by differential run incl. TCPSignature.parse of the printed text). No axioms.",
-             tech="Coq proof (model = declarative spec) + extracted-model differential correspondence", ref="DESIGN.md section 4 C01"),
+                  "(tied twice: by the differential run incl. TCPSignature.parse of the printed text, and by translate/py2coq.py, which regenerates both functions from /repo's source on every run and whose output is proved equal to the model: Gen/GenP_match.v - the translator's reading of the Python subset is trusted). No axioms.",
+             tech="Coq proof (model = declarative spec) + source-to-Gallina translation proved equal to the model + extracted-model differential correspondence", ref="DESIGN.md section 4 C01, section 12"),
  "C17": dict(text="Coq theorems for all packet signatures: the multiplier is window/d for the FIRST dividing entry of the documented divisor list "
                   "(both directions), none iff zero window / MSS<100 / no divisor, the list equals the documented sequence, and no multiplier "
                   "=> mss*N / mtu*N cannot match. " + TIE + GEN,
-             note="Trusted: Coq kernel; extraction+driver; generator/worker; hand-written model of calculate_window_multiplier. No axioms.",
-             tech="Coq proof (first-divisor characterisation) + extracted-model differential correspondence", ref="DESIGN.md section 4 C17"),
+             note="Trusted: Coq kernel; extraction+driver; generator/worker; hand-written model of calculate_window_multiplier (tied twice: differential run, and translate/py2coq.py group match regenerated from /repo's source on every run and proved equal to the model; the translator's reading of the Python subset is trusted). No axioms.",
+             tech="Coq proof (first-divisor characterisation) + source-to-Gallina translation proved equal to the model + extracted-model differential correspondence", ref="DESIGN.md section 4 C17, section 12"),
  "C02": dict(text="Coq theorems for all databases x packets: the single-pass loop with its two accumulators equals the three 'earliest such record' "
                   "searches (specific exact, generic exact, first fuzzy unless class '!'), the result is a matching member of the consulted list, only "
                   "the packet direction's section is read, distance formula and 0..255 range (via the C01 type theorem), packet gate, unloaded "
